@@ -62,6 +62,8 @@ def dyn_contracts(u, ID, lw, be, ety):
             if not THOROUGH[0]:
                 return
             kw["optional"] = True
+        if kw.get("stubs") and not kw.get("unwind"):
+            kw["loops"] = dict(list(ambient.items()) + list((kw.get("loops") or {}).items()))
         c = Contract(f, "dynamic_array_ref::" + name + T, props=set(props), ghosts=list(ghosts), mode=mode, pre=pre, post=post, assigns=list(assigns), **kw)
         out.append(c)
 
@@ -142,7 +144,22 @@ def dyn_contracts(u, ID, lw, be, ety):
          ("existing-elements-unchanged", "SPEC_IMPLIES(sbv_k < %s, (uint8_t)%s[%d + sbv_k] == OLD((uint8_t)%s[%d + sbv_k]))" % (L0, vw.begin, lw, vw.begin, lw))], ghosts=GH + [("unsigned long", "sbv_k")],
         assigns=["%s: __CPROVER_object_upto(%s, %d + (unsigned long)%s + 1)" % (FITS("(unsigned long)%s + 1" % LEN(vw)), vw.begin, lw, LEN(vw))], props={"C13", "C01", "C10"})
 
-    # ---------- element-moving mutators: structure (unbounded, libc replaced) and content (bounded)
+    # loop contracts of resize(count) / resize(count, value), attached wherever these two functions are reachable (so that an operation that
+    # starts to call them is still decided): prefix == count, kept elements == loop entry, new elements == value up to i
+    PINS = ["%d + sbv_k" % lw, "%d + sbv_j" % lw]  # the ghost-indexed elements are part of every counterexample
+    ambient = {}
+    for nm, hasv in (("resize", False), ("resize_v", True)):
+        f = tgt(nm)
+        p, rec, vw = dview(f)
+        cnt = f.p[1]
+        val = f.p[2] if hasv else "0"
+        # the ghost index is clamped to element 0 when it is outside the buffer (branch-free: loop-entry snapshots are taken unconditionally)
+        elk = "(uint8_t)%s[%d + (sbv_k & (0UL - (unsigned long)(sbv_k < sbv_n - %d)))]" % (vw.begin, lw, lw)
+        inv = ["(unsigned long)old_size <= (unsigned long)i && (unsigned long)i <= (unsigned long)%s" % cnt, FITS(cnt)] + [e for _, e in lenbytes(vw, cnt)] + \
+              ["SPEC_IMPLIES(sbv_k < sbv_n - %d && sbv_k < (unsigned long)old_size, %s == __CPROVER_loop_entry(%s))" % (lw, elk, elk),
+               "SPEC_IMPLIES(sbv_k < sbv_n - %d && sbv_k >= (unsigned long)old_size && sbv_k < (unsigned long)i, %s == (uint8_t)%s)" % (lw, elk, val)]
+        ambient[(f.mangled, 0)] = Loop(assigns=["i", "__CPROVER_object_upto(%s, sbv_n)" % vw.begin], invariants=inv, decreases="(unsigned long)%s - (unsigned long)i" % cnt)
+    # ---------- element-moving mutators: structure and content, both unbounded
     GK = GH + [("unsigned long", "sbv_p"), ("unsigned long", "sbv_q"), ("unsigned long", "sbv_k"), ("unsigned long", "sbv_j")]
     libc = libc_contracts(u)
 
@@ -152,7 +169,7 @@ def dyn_contracts(u, ID, lw, be, ety):
         and content clauses (ghost element indices sbv_k/sbv_j inside the buffer); memmove/memset are the ghost-index over-approximations of engine.GHOST_STUBS,
         `link` ties their ghost byte indices to sbv_k (one equation per libc call the operation makes)."""
         p, rec, vw = dview(f)
-        pre = [OBJ(p, rec)] + vw.wf()
+        pre = [OBJ(p, rec)] + vw.wf(pins=PINS)
         for prm, gh in iters:
             pre += [INRANGE(prm, "((%s *)(%s + %d))" % (ety, vw.begin, lw), "((%s *)(%s + sbv_n))" % (ety, vw.begin), gh), ASSUME("%d + %s <= sbv_n" % (lw, gh))]
         pre = pre[:3] + [ASSUME("%d <= sbv_n" % lw)] + pre[3:] + pre_extra
@@ -183,7 +200,7 @@ def dyn_contracts(u, ID, lw, be, ety):
          [("prefix-unchanged-before-first", "SPEC_IMPLIES(sbv_k < sbv_p, %s == %s)" % (el(vw, "sbv_k"), el(vw, "sbv_k", True))),
           ("tail-shifted-left", "SPEC_IMPLIES(sbv_k >= sbv_p && sbv_k + (sbv_q - sbv_p) < %s && sbv_j == sbv_k + (sbv_q - sbv_p), %s == %s)" % (L0, el(vw, "sbv_k"), el(vw, "sbv_j", True)))],
          None, iters=[(first, "sbv_p"), (last, "sbv_q")], link=["sbv_mt0 == %d + sbv_k" % lw])
-    add(f, "erase(first,end()) is valid", [OBJ(p, rec)] + vw.wf() + [ASSUME("%d <= sbv_n" % lw), INRANGE(first, "((%s *)(%s + %d))" % (ety, vw.begin, lw), "((%s *)(%s + sbv_n))" % (ety, vw.begin), "sbv_p"),
+    add(f, "erase(first,end()) is valid", [OBJ(p, rec)] + vw.wf(pins=PINS) + [ASSUME("%d <= sbv_n" % lw), INRANGE(first, "((%s *)(%s + %d))" % (ety, vw.begin, lw), "((%s *)(%s + sbv_n))" % (ety, vw.begin), "sbv_p"),
                                                                      INRANGE(last, "((%s *)(%s + %d))" % (ety, vw.begin, lw), "((%s *)(%s + sbv_n))" % (ety, vw.begin), "sbv_q"),
                                                                      ASSUME("%s && sbv_p <= sbv_q && sbv_q == (unsigned long)%s && sbv_n <= %d" % (FITS(LEN(vw)), LEN(vw), lw + 4))],
         lenbytes(vw, "sbv_p"), assigns=["__CPROVER_object_upto(%s, sbv_n)" % vw.begin], mode="N", ghosts=GK, props={"C13", "C10"}, kind="bounded(buffer<=%d)" % (lw + 4), unwind=CAPL + 2, backends=["z3", "kissat", "cvc5", "minisat"])
@@ -242,7 +259,7 @@ def dyn_contracts(u, ID, lw, be, ety):
         p, rec, vw = dview(f)
         pos = f.p[1]
         src, srcpre = source(f, kind, 2)
-        pre = [OBJ(p, rec)] + vw.wf() + [ASSUME("%d <= sbv_n" % lw), INRANGE(pos, "((%s *)(%s + %d))" % (ety, vw.begin, lw), "((%s *)(%s + sbv_n))" % (ety, vw.begin), "sbv_p"), ASSUME("%d + sbv_p <= sbv_n" % lw)] + srcpre + \
+        pre = [OBJ(p, rec)] + vw.wf(pins=PINS) + [ASSUME("%d <= sbv_n" % lw), INRANGE(pos, "((%s *)(%s + %d))" % (ety, vw.begin, lw), "((%s *)(%s + sbv_n))" % (ety, vw.begin), "sbv_p"), ASSUME("%d + sbv_p <= sbv_n" % lw)] + srcpre + \
               [ASSUME("(unsigned long)%s <= %dUL && sbv_m <= %dUL - (unsigned long)%s" % (LEN(vw), MAXV, MAXV, LEN(vw)))]
         post_s = [("pos-inside-or-reported", "sbv_p <= %s" % L0), ("new-size-fits-or-reported", FITS("%s + sbv_m" % L0))] + lenbytes(vw, "%s + sbv_m" % L0) + [("returns-pos", "RET == OLD(%s)" % pos)]
         post_c = [("prefix-unchanged-before-pos", "SPEC_IMPLIES(sbv_k < sbv_p, %s == %s)" % (el(vw, "sbv_k"), el(vw, "sbv_k", True))),
@@ -260,7 +277,7 @@ def dyn_contracts(u, ID, lw, be, ety):
     pos = f.p[1]
     src, srcpre = source(f, "init", 2)
     GR = GM + [("unsigned long", "sbv_r")]
-    pre = [OBJ(p, rec)] + vw.wf() + [ASSUME("%d <= sbv_n" % lw), INRANGE(pos, "((%s *)(%s + %d))" % (ety, vw.begin, lw), "((%s *)(%s + sbv_n))" % (ety, vw.begin), "sbv_p"), ASSUME("%d + sbv_p <= sbv_n" % lw)] + srcpre + \
+    pre = [OBJ(p, rec)] + vw.wf(pins=PINS) + [ASSUME("%d <= sbv_n" % lw), INRANGE(pos, "((%s *)(%s + %d))" % (ety, vw.begin, lw), "((%s *)(%s + sbv_n))" % (ety, vw.begin), "sbv_p"), ASSUME("%d + sbv_p <= sbv_n" % lw)] + srcpre + \
           [ASSUME("sbv_m <= 2 && (unsigned long)%s <= %dUL && sbv_m <= %dUL - (unsigned long)%s" % (LEN(vw), MAXV, MAXV, LEN(vw)))]
     post_s = [("pos-inside-or-reported", "sbv_m == 0 || sbv_p <= %s" % L0), ("new-size-fits-or-reported", "sbv_m == 0 || %s" % FITS("%s + sbv_m" % L0))] + lenbytes(vw, "%s + sbv_m" % L0) + [("returns-pos", "RET == OLD(%s)" % pos)]
     post_c = [("prefix-unchanged-before-pos", "SPEC_IMPLIES(sbv_k < sbv_p, %s == %s)" % (el(vw, "sbv_k"), el(vw, "sbv_k", True))),
@@ -277,7 +294,7 @@ def dyn_contracts(u, ID, lw, be, ety):
         f = tgt(nm)
         p, rec, vw = dview(f)
         src, srcpre = source(f, kind, 1)
-        pre = [OBJ(p, rec)] + vw.wf() + srcpre + [ASSUME("%d <= sbv_n && sbv_m <= sbv_n - %d && sbv_m <= %dUL" % (lw, lw, MAXV))]
+        pre = [OBJ(p, rec)] + vw.wf(pins=PINS) + srcpre + [ASSUME("%d <= sbv_n && sbv_m <= sbv_n - %d && sbv_m <= %dUL" % (lw, lw, MAXV))]
         add(f, label + " [structure]", pre, lenbytes(vw, "sbv_m"), assigns=frame(vw), mode="N", ghosts=GM, props={"C13", "C10", "C01"}, stubs=STUBS)
         add(f, label + " [content]", pre + [ASSUME("sbv_k < sbv_m && sbv_mt0 == %d + sbv_k" % lw)], [("elements-are-the-range", "%s == (uint8_t)%s[sbv_k]" % (el(vw, "sbv_k"), src))], assigns=frame(vw), mode="N", ghosts=GM,
             props={"C13", "C10", "C01"}, stubs=STUBS)
@@ -285,13 +302,13 @@ def dyn_contracts(u, ID, lw, be, ety):
     f = tgt("assign_ilist")
     p, rec, vw = dview(f)
     src, srcpre = source(f, "ilist", 1)
-    add(f, "assign(ilist) [reporting]", [OBJ(p, rec)] + vw.wf() + srcpre + [ASSUME("sbv_m <= %dUL" % MAXV)], [("list-fits-or-reported", FITS("sbv_m"))] + lenbytes(vw, "sbv_m"),
+    add(f, "assign(ilist) [reporting]", [OBJ(p, rec)] + vw.wf(pins=PINS) + srcpre + [ASSUME("sbv_m <= %dUL" % MAXV)], [("list-fits-or-reported", FITS("sbv_m"))] + lenbytes(vw, "sbv_m"),
         assigns=["%s: __CPROVER_object_upto(%s, sbv_n)" % (FITS("sbv_m"), vw.begin)], ghosts=GM, props={"C13", "C10"}, stubs=STUBS)
     # assign_string(const char*): strlen is the ghost-length stub (engine.GHOST_STUBS): unbounded in the string length
     f = tgt("assign_string")
     p, rec, vw = dview(f)
     sp = f.p[1]
-    pre = [OBJ(p, rec)] + vw.wf() + [BUF(sp, "sbv_m"), ASSUME("sbv_l < sbv_m && sbv_l <= %dUL" % MAXV), ASSUME("%d <= sbv_n" % lw), ASSUME("SPEC_NATIVE_ONLY(strlen(%s) == sbv_l)" % sp)]
+    pre = [OBJ(p, rec)] + vw.wf(pins=PINS) + [BUF(sp, "sbv_m"), ASSUME("sbv_l < sbv_m && sbv_l <= %dUL" % MAXV), ASSUME("%d <= sbv_n" % lw), ASSUME("SPEC_NATIVE_ONLY(strlen(%s) == sbv_l)" % sp)]
     SST = ("memmove", "memset", "strlen")
     # const char* -> value_type* with a different value_type: libstdc++ copies element-wise (__copy_m loop), closed by a loop contract
     skw = {}
@@ -309,7 +326,7 @@ def dyn_contracts(u, ID, lw, be, ety):
     f = tgt("insert_n")
     p, rec, vw = dview(f)
     pos, cnt, val = f.p[1], f.p[2], f.p[3]
-    pre = [OBJ(p, rec)] + vw.wf() + [ASSUME("%d <= sbv_n" % lw), INRANGE(pos, "((%s *)(%s + %d))" % (ety, vw.begin, lw), "((%s *)(%s + sbv_n))" % (ety, vw.begin), "sbv_p"), ASSUME("%d + sbv_p <= sbv_n" % lw)]
+    pre = [OBJ(p, rec)] + vw.wf(pins=PINS) + [ASSUME("%d <= sbv_n" % lw), INRANGE(pos, "((%s *)(%s + %d))" % (ety, vw.begin, lw), "((%s *)(%s + sbv_n))" % (ety, vw.begin), "sbv_p"), ASSUME("%d + sbv_p <= sbv_n" % lw)]
     add(f, "insert(pos,count,value) [structure, any count]", pre,
         [("pos-inside-or-reported", "sbv_p <= %s" % L0), ("new-size-representable-and-fits-or-reported", "%s <= %dUL && (unsigned long)%s <= %dUL - %s && %s" % (L0, MAXV, cnt, MAXV, L0, FITS("%s + (unsigned long)%s" % (L0, cnt))))],
         assigns=frame(vw), ghosts=GK, props={"C13", "C10"}, stubs=STUBS)
@@ -317,7 +334,7 @@ def dyn_contracts(u, ID, lw, be, ety):
         f = tgt("assign_string")
         p, rec, vw = dview(f)
         sp = f.p[1]
-        pre = [OBJ(p, rec)] + vw.wf() + [BUF(sp, "sbv_m"), ASSUME("sbv_l < sbv_m"), ASSUME("%d <= sbv_n" % lw), ASSUME("SPEC_NATIVE_ONLY(strlen(%s) == sbv_l)" % sp)] + sbound
+        pre = [OBJ(p, rec)] + vw.wf(pins=PINS) + [BUF(sp, "sbv_m"), ASSUME("sbv_l < sbv_m"), ASSUME("%d <= sbv_n" % lw), ASSUME("SPEC_NATIVE_ONLY(strlen(%s) == sbv_l)" % sp)] + sbound
         add(f, "assign_string [structure, any length]", pre, [("new-size-representable-and-fits-or-reported", "sbv_l <= %dUL && %s" % (MAXV, FITS("sbv_l")))], assigns=frame(vw), ghosts=GM, props={"C13", "C10"}, stubs=SST, **skw)
     # assign(count, value)
     f = tgt("assign_n")
@@ -332,17 +349,12 @@ def dyn_contracts(u, ID, lw, be, ety):
         p, rec, vw = dview(f)
         cnt = f.p[1]
         val = f.p[2] if hasv else "0"
-        pre = [OBJ(p, rec)] + vw.wf() + [ASSUME("%d <= sbv_n" % lw), ASSUME("sbv_k < sbv_n && sbv_k + %d < sbv_n" % lw)]
-        elk = "(uint8_t)%s[%d + sbv_k]" % (vw.begin, lw)
-        inv = ["(unsigned long)old_size <= (unsigned long)i && (unsigned long)i <= (unsigned long)%s" % cnt, FITS(cnt)] + [e for _, e in lenbytes(vw, cnt)] + \
-              ["SPEC_IMPLIES(sbv_k < (unsigned long)old_size, %s == __CPROVER_loop_entry(%s))" % (elk, elk),
-               "SPEC_IMPLIES(sbv_k >= (unsigned long)old_size && sbv_k < (unsigned long)i, %s == (uint8_t)%s)" % (elk, val)]
-        loop = Loop(assigns=["i", "__CPROVER_object_upto(%s, sbv_n)" % vw.begin], invariants=inv, decreases="(unsigned long)%s - (unsigned long)i" % cnt)
+        pre = [OBJ(p, rec)] + vw.wf(pins=PINS) + [ASSUME("%d <= sbv_n" % lw), ASSUME("sbv_k < sbv_n && sbv_k + %d < sbv_n" % lw)]
         add(f, "resize(count%s)" % (",value" if hasv else ""), pre,
             [("new-size-fits-or-reported", FITS(cnt))] + lenbytes(vw, cnt) +
             [("kept-elements-unchanged", "SPEC_IMPLIES(sbv_k < %s && sbv_k < (unsigned long)%s, %s == %s)" % (L0, cnt, el(vw, "sbv_k"), el(vw, "sbv_k", True))),
              ("new-elements-initialised", "SPEC_IMPLIES(sbv_k >= %s && sbv_k < (unsigned long)%s, %s == (uint8_t)%s)" % (L0, cnt, el(vw, "sbv_k"), val))],
-            assigns=frame(vw), ghosts=GK, props={"C13", "C10", "C01"}, loops={0: loop})
+            assigns=frame(vw), ghosts=GK, props={"C13", "C10", "C01"}, loops=dict(ambient))
     return out
 
 
